@@ -279,6 +279,7 @@ type Opts struct {
 	AnonUnionContainers bool // []Union / map[string]Union fields (gounions refuses them)
 	EnumUnexported bool // enums with unexported members
 	DashTags bool // some fields tagged json:"-"
+	NoNamedRec bool // no `type Tree []Tree` (the SQL JSON validators refuse recursive named containers)
 	DataIgnore bool // some fields tagged gomacro-data:"ignore"
 }
 
@@ -479,7 +480,7 @@ func Random(id int, rng *rand.Rand, o Opts) *Prog {
 		add(Decl{K: "struct", Name: "UsesAlias", Fields: []Field{{Name: "A", Type: Ref("", "AliasAlpha")}, {Name: "B", Type: Basic("int")},
 			{Name: "C", Type: Ref("", "AliasAlpha2")}, {Name: "D", Type: Ref("", "LabelB")}, {Name: "E", Type: Slice(Ref("", "LabelB"))}}})
 	}
-	if o.Recursive {
+	if o.Recursive && !o.NoNamedRec {
 		// named containers referring to themselves without a struct in between
 		tr := Slice(Ref("", "Tree"))
 		add(Decl{K: "named", Name: "Tree", Under: &tr})
